@@ -235,6 +235,10 @@ class PolyDomain:
         if isinstance(b, SignPred):
             # predicate "p > 0" with p != 0 (A3): blend through the sign atom s (s^2 = 1, s p = |p|)
             if isinstance(t, Poly) and isinstance(f, Poly):
+                if not hasattr(self, "branch_preds"):
+                    self.branch_preds = []
+                if b.p not in self.branch_preds:
+                    self.branch_preds.append(b.p)
                 sg = self.sign(b.p)
                 half = Poly.const(Fraction(1, 2))
                 return (t + f) * half + (t - f) * half * sg
@@ -490,10 +494,16 @@ class PolyDomain:
         return self.uf("erf_inv", (a,))
 
     def max(self, a, b):
-        return a if self._cmp(a, b) >= 0 else b
+        c = self._cmp_or_pred(a, b, False)
+        if isinstance(c, SignPred):
+            return self.select(c, a, b)
+        return a if c >= 0 else b
 
     def min(self, a, b):
-        return a if self._cmp(a, b) <= 0 else b
+        c = self._cmp_or_pred(a, b, False)
+        if isinstance(c, SignPred):
+            return self.select(c, b, a)
+        return a if c <= 0 else b
 
     def to_int(self, a):
         if a.is_const() and a.cval().denominator == 1:
